@@ -76,7 +76,7 @@ def _r1(chk, repo):
     problems, und = [], []
     for par in (True, False):
         val = {}
-        for k_, b_ in ((("self.is_par is True", "self.is_par", "self.is_par==True"), par), (("self.is_par is False", "not self.is_par", "self.is_par is not True"), not par)):
+        for k_, b_ in ((("self.is_par is True", "self.is_par", "self.is_par==True", "self.is_par is not False", "self.is_par!=False"), par), (("self.is_par is False", "not self.is_par", "self.is_par is not True", "self.is_par==False", "self.is_par!=True"), not par)):
             for k in k_:
                 val[_ct(k)] = b_
         conv = "self.geometry.par2fun(self)" if par else "self"
@@ -94,7 +94,7 @@ def _r1(chk, repo):
     problems, und = [], []
     for par in (True, False):
         val = {}
-        for k_, b_ in ((("self.is_par is False", "not self.is_par", "self.is_par==False", "self.is_par is not True"), not par), (("self.is_par is True", "self.is_par"), par)):
+        for k_, b_ in ((("self.is_par is False", "not self.is_par", "self.is_par==False", "self.is_par is not True", "self.is_par!=True"), not par), (("self.is_par is True", "self.is_par", "self.is_par==True", "self.is_par is not False", "self.is_par!=False"), par)):
             for k in k_:
                 val[_ct(k)] = b_
         val[_ct("self.dtype==np.dtype('O')")] = False
